@@ -219,9 +219,17 @@ def _find_first_spdx_comment(
             "REUSE-IgnoreEnd", 0, index
         ):
             continue
+        # Neither is what belongs to an SPDX snippet: the comment that opens
+        # the snippet, and everything up to the end of the snippet.
+        if text.rfind("SPDX-SnippetBegin", 0, index) > text.rfind(
+            "SPDX-SnippetEnd", 0, index
+        ):
+            continue
         try:
             comment = style.comment_at_first_character(text[index:])
         except CommentParseError:
+            continue
+        if "SPDX-SnippetBegin" in comment:
             continue
         if contains_reuse_info(comment):
             return _TextSections(
